@@ -155,11 +155,25 @@ def collect():
     list_ops = [(m, beh([col], m, (col,) if m not in ('__invert__', '__neg__') else ()),
                  beh([col], m, ([col],) if m not in ('__invert__', '__neg__') else ())) for m in names]
     text_has = [m for m in names if hasattr(sa.text('*'), m)]
+    # --- probes of behaviour the repairs proposed for C17 change (the model follows the live code)
+    from mindsdb_sql.parser import ast as A
+    from mindsdb_sql import parse_sql
+    r0 = sr.SqlalchemyRender('postgres')
+    tuple_is_list = isinstance(r0.to_expression(A.Tuple([A.Constant(1)])), list)
+    from sqlalchemy.exc import SQLAlchemyError
+    dup_exc = 'sa' if issubclass(sr.RenderError, SQLAlchemyError) else (
+        'notImpl' if issubclass(sr.RenderError, NotImplementedError) else 'exception')
+    try:
+        pg_text = r0.get_string(parse_sql("select 'a`b' from `x y`.b.c.d", 'mindsdb'))
+    except Exception as e:
+        pg_text = 'exc:' + type(e).__name__
+    pg_keeps_literal = "'a`b'" in pg_text
     return dict(types_map=tm[DIALECT_NAMES[0]], types_uniform=uniform, dialects=dn, dialect_keys=init_dict,
                 methods=dicts.get('methods', []), functions=[k for k, _ in dicts.get('functions', [])],
                 opmap=dicts.get('opmap', []), caught=caught, regexes=regexes, type_assigns=type_assigns,
                 create_table_literals=pct, join_literals=join_lits, attr_stores=sorted(set(attr_stores)), param_writes=sorted(set(param_writes)),
-                list_ops=list_ops, text_has=text_has)
+                list_ops=list_ops, text_has=text_has, tuple_is_list=tuple_is_list, dup_exc=dup_exc,
+                pg_keeps_literal=pg_keeps_literal, pg_probe=pg_text)
 
 
 def emit(d):
@@ -178,6 +192,12 @@ def emit(d):
          'def listOps : List (String × String × String) := ' + lean_list('(%s, %s, %s)' % tuple(lean_str(x) for x in t) for t in d['list_ops']),
          '/-- probed: attribute names a TextClause (`sa.text("*")`, i.e. Star) has -/',
          'def textHas : List String := ' + lean_list(lean_str(x) for x in d['text_has']),
+         '/-- probed: `to_expression(Tuple)` builds a Python list (else: a sqlalchemy element) -/',
+         'def tupleIsList : Bool := ' + ('true' if d['tuple_is_list'] else 'false'),
+         '/-- probed: class of `RenderError` as the wrapper sees it ("exception" | "sa" | "notImpl") -/',
+         'def dupExc : String := ' + lean_str(d['dup_exc']),
+         '/-- probed: the postgres fallback keeps a back-tick that is inside a string literal (%s) -/' % d['pg_probe'].replace('-/', ''),
+         'def pgKeepsLiteral : Bool := ' + ('true' if d['pg_keeps_literal'] else 'false'),
          '/-- exception classes named in the `except` clause of get_exec_params -/',
          'def caught : List String := ' + lean_list(lean_str(x) for x in d['caught']),
          '/-- regex literals of get_type, in order, and its assignments -/',
